@@ -1,6 +1,7 @@
 package websocket
 
 import (
+	"context"
 	"time"
 )
 
@@ -189,4 +190,71 @@ func verifC09_closeread() {
 	c.CloseNow()
 	vAssert(vGhostGoroutines() == 0, "C20.exit.closeread-goroutine-gone")
 	vObserve("closeread", how)
+}
+
+// C09.late-closeread: the connection has already ended - closed by the library itself when a write's context expired
+// against a peer that does not read, by a read that met the peer's Close frame or the end of the transport, or by the
+// application - and only then CloseRead is called for the first time. Its context is cancelled promptly, and the
+// Close / CloseNow that follows returns promptly (there is nothing to wait for) and leaves no goroutine.
+func verifC09_late_closeread() {
+	client := vParam("client", 1) == 1
+	vInstallRand()
+	mk := func(f vFrame) vFrame {
+		f.masked = !client
+		if f.masked {
+			copy(f.key[:], vBytes("key", 4))
+		}
+		return f
+	}
+	how := vChoose("how", 4)
+	vClassify("ended-by", []string{"write-context-expiry", "peer-close-read", "transport-eof-read", "closenow"}[how])
+	var wire []byte
+	if how == 1 {
+		wire = vEncodeFrame(mk(vFrame{fin: true, opcode: 8, payload: []byte{0x03, 0xe8}}))
+	}
+	t := vNewTransport(wire)
+	t.endMode = vEndBlock
+	if how == 2 {
+		t.endMode = vEndEOF
+	}
+	if how == 0 {
+		t.writeBlock = true
+	}
+	c := vNewConn(t, client, nil, 32, 64)
+	switch how {
+	case 0:
+		ctx, cancel := context.WithTimeout(vBG, time.Second)
+		err := c.Write(ctx, MessageBinary, vBytes("w", 2))
+		cancel()
+		vAssert(err != nil, "C09.late-closeread.setup")
+	case 1, 2:
+		_, _, err := c.Read(vBG)
+		vAssert(err != nil, "C09.late-closeread.setup")
+	case 3:
+		c.CloseNow()
+	}
+	vGhostSettle()
+	if how != 2 {
+		// (a read that met the end of the transport fails and ends the read side; the connection itself is closed by the
+		// CloseRead reader, which fails at once)
+		vAssert(!vIsOpen(c), "C09.late-closeread.setup-connection-over")
+	}
+	start := vGhostElapsed()
+	ctx := c.CloseRead(vBG)
+	select {
+	case <-ctx.Done():
+	case <-time.After(30 * time.Second):
+		vAssert(false, "C09.closeread.cancelled-at-all")
+	}
+	vAssert(vGhostElapsed()-start < time.Second+vSlack(), "C09.closeread.prompt")
+	start = vGhostElapsed()
+	if vChoose("final", 2) == 1 {
+		c.Close(StatusNormalClosure, "")
+	} else {
+		c.CloseNow()
+	}
+	vReach("C09.late-closeread.done")
+	vAssert(vGhostElapsed()-start < time.Second+vSlack(), "C09.closenow.prompt-after-the-connection-is-over")
+	vAssert(vGhostGoroutines() == 0, "C20.exit.closeread-goroutine-gone")
+	vObserve("latecloseread", how)
 }
